@@ -209,13 +209,15 @@ ERRCLASS = [("nil error", "nil"), ("type error", "type"), ("division by zero", "
 MARK = "@@MARK@@"
 
 
-def judge_via_loop(sessions, cmp=("report",), maxsteps=60000, ck=None, part=None, oneline=False):
+def judge_via_loop(sessions, cmp=("report",), maxsteps=60000, ck=None, part=None, oneline=False, layout=None):
     """The sessions go through the real read-eval loop (node.Loop in process, the REPL's way of running statements) with a marker
     statement after every item; the transcript is cut at the markers and every piece becomes a recorded observation (a value -- not
     compared --, or an error with its class and parsed report) which CalcSem judges in trace mode.  Returns a list of Verdict."""
     reqs, by_id = [], {}
     for s in sessions:
         texts = [item_text(it) for it in s["items"]]
+        if layout:          # another layout of the same trees (e.g. line breaks inside string literals written as real line breaks)
+            texts = [layout(t) for t in texts]
         lines = []
         for t in texts:
             lines += t.split("\n") + ['write("%s")' % MARK]
@@ -246,7 +248,11 @@ def judge_via_loop(sessions, cmp=("report",), maxsteps=60000, ck=None, part=None
         for seg in segs[:-1]:
             i = seg.find("RUNTIME ERROR : ")
             if i < 0:
-                rec.append({"kind": "perr"} if ("Parser:" in seg or "Lexer:" in seg) else {"kind": "val", "val": {"k": "none"}, "out": [], "residue": {}})
+                if "Parser:" in seg or "Lexer:" in seg:
+                    rec.append({"kind": "perr"})
+                else:       # what the statement wrote, then the REPL's echo of its value ("> value"): the value is not compared, the output is when asked for
+                    k = seg.rfind("> ")
+                    rec.append({"kind": "val", "val": {"k": "none"}, "out": [c for c in (seg[:k] if (k >= 0 and "value" in cmp) else "")], "residue": {}})
                 continue
             head = seg[i + len("RUNTIME ERROR : "):].split("\n")[0]
             cls = next((c for t, c in ERRCLASS if head.startswith(t)), "other:" + head)
